@@ -67,6 +67,17 @@ def _dyn_getattr(run, args, kwargs, node):
     raise EngineError("dynamic getattr on an object that is neither a ComponentMedia nor a component class")
 
 
+def _dyn_setattr(run, args, kwargs, node):
+    """setattr(media_obj, name, value): stores into the object's attribute table"""
+    obj = args[0]
+    if isinstance(obj, Val) and isinstance(obj.ty, TRef) and obj.ty.cls == MEDIA:
+        cur = run.load_field(obj.t, MEDIA, "values")
+        new = ops.setitem(run, cur, run.coerce(args[1], TStr), run.coerce(args[2], TAny), node)
+        run.store_field(obj.t, MEDIA, "values", new)
+        return NONE
+    raise EngineError("setattr on an object that is not a ComponentMedia")
+
+
 # ---- _resolve_media: ASSUMED (file-system work): marks the object resolved and preserves, for each pair, whether the pair is empty
 PAIRS = [("js", "js_file"), ("css", "css_file"), ("template", "template_file")]
 
@@ -115,6 +126,14 @@ def _attr_inv(c):
                   z3.ForAll([j], z3.Implies(z3.And(0 <= j, j < i), _skipped(c.field(MEDIA, "values"), mro, j, c["attr"].t))))
 
 
+def _pairs_stable(c):
+    """history clause: the lookup never changes WHICH classes define a pair (only resolution touches the objects, and it
+    preserves emptiness) - so the answer for any other class is not affected by this call"""
+    r = z3.Const("bv_r", I)
+    v0, v1 = c.field(MEDIA, "values", True), c.field(MEDIA, "values")
+    return z3.ForAll([r], z3.And(*[_pair_empty(v1, r, a, b) == _pair_empty(v0, r, a, b) for a, b in PAIRS]))
+
+
 def _attr_post(c):
     mro = mro_of(c["comp_cls"].t)
     vals = c.field(MEDIA, "values")
@@ -131,7 +150,7 @@ def _attr_post(c):
 
 REG.contract(
     f"{MOD}:_get_comp_cls_attr", prop=P, types={"comp_cls": CLS, "attr": Str}, result=Any_,
-    calls={"getattr": _dyn_getattr},
+    calls={"getattr": _dyn_getattr, "setattr": _dyn_setattr},
     locals={"comp_media": Ref(MEDIA)},
     # every component class gets its OWN ComponentMedia object from the metaclass (classes in an MRO are distinct)
     requires=[lambda c: z3.ForAll([z3.Const("bv_j", I), z3.Const("bv_k", I)], z3.Implies(
@@ -139,8 +158,9 @@ REG.contract(
                media_of(mro_of(c["comp_cls"].t)[z3.Const("bv_j", I)]) != 0),
         media_of(mro_of(c["comp_cls"].t)[z3.Const("bv_j", I)]) != media_of(mro_of(c["comp_cls"].t)[z3.Const("bv_k", I)])))],
     modifies=[f"{MEDIA}.resolved", f"{MEDIA}.values"], raises={"Any": None},
-    loops={0: Loop(inv=[_attr_inv], variant="len(_seq0) - _i0")},
-    ensures={"taken_from_the_nearest_class_that_defines_the_pair": _attr_post},
+    loops={0: Loop(inv=[_attr_inv, _pairs_stable], variant="len(_seq0) - _i0")},
+    ensures={"taken_from_the_nearest_class_that_defines_the_pair": _attr_post,
+             "which_classes_define_a_pair_is_unchanged": _pairs_stable},
 )
 
 
